@@ -234,16 +234,39 @@ def state_oracle(cfg, T, want):
 
 def explore_cfg(cfg, want, max_states=None):
     res = Res()
+    # the memo over a finite request alphabet is finite (largest configuration of the thorough tier:
+    # 65 536 states); a search that passes this guard is not closing, which means that state other
+    # than the memo keeps growing - reported as an incomplete run at once instead of after a time-out
+    guard = max_states is None
     T = Tables(cfg)
     ops = ops_for(cfg, T)
+    inner = state_oracle(cfg, T, want)
+    per_memo = {}
+
+    def on_state(an, hist):
+        # many distinct object states over one and the same memo content: something else is growing
+        try:
+            fp = hash(frozenset(an.cache.items()))
+        except Exception:
+            fp = None
+        if guard and fp is not None:
+            per_memo[fp] = per_memo.get(fp, 0) + 1
+            if per_memo[fp] > 64:
+                g.max_states = g.states        # stop the search: it is not going to close
+        return inner(an, hist)
+
     g = Graph(make=lambda: ipdom.make(cfg), ops=lambda an: ops,
               apply=lambda an, op: apply_op(cfg, an, op),
               on_transition=transition_oracle(cfg, T, want),
-              on_state=state_oracle(cfg, T, want), max_states=max_states)
+              on_state=on_state, max_states=max_states)
     g.run()
     res.states, res.transitions, res.traces = g.states, g.transitions, g.traces
     res.evals = g.transitions
     res.exhaustive = not g.capped
+    if g.capped and guard:
+        res.violation("harness-exception", "the state space of configuration %r does not close: after %d states, more than 64 distinct object "
+                      "states share one memo content (state other than the memo keeps growing under repeated requests)" % (cfg, g.states), cfg)
+        res.counters["harness_errors"] = 1
     res.count("max_witness_depth", 0)
     res.counters["max_witness_depth"] = g.max_depth_seen
     for k in g.witness:
